@@ -74,6 +74,7 @@ def overflow_cases(cases, st, res, prop):
 def run_C02(tier, rnd, st, res):
     cases = list(gen_triples(rnd, per=1 if tier == 'quick' else 6))
     cases += list(gen_random(rnd, 300 if tier == 'quick' else 10000))
+    cases += list(gen_tie_history(120 if tier == 'quick' else 2000))
     cases = sweep(cases, st, res, ['c02'], want_c06=False)
     # every symbol of a Structured Append sequence carries its own function patterns, format and version information
     sequence_block(tier, rnd, res, 'c02', auto_mask=True, versions=[1, 6, 7, 8, 10] if tier == 'quick' else None)
@@ -94,6 +95,7 @@ def run_C03(tier, rnd, st, res):
             mode = rnd.choice(modes_of(v))
             cases.append(Case(content_for(rnd, mode, max_chars(v, e, mode)), dict(kw, mode=MODE_NAME[mode]), 'full'))
     cases += list(gen_minimal(rnd))
+    cases += list(gen_tie_history(120 if tier == 'quick' else 2000))
     cases = sweep(cases, st, res, ['c03'], want_c06=False)
     res.exhaustive = True
     finish(res, cases, 'all 168 block layouts x all masks (triples) + per layout a nearly empty symbol (pad-only blocks) and a full one; '
@@ -109,6 +111,7 @@ def run_C01(tier, rnd, st, res):
     cases += list(gen_merge_histories(rnd, 25 if tier == 'quick' else 250))
     cases += list(gen_encoding_histories(rnd))
     cases += list(gen_minimal(rnd))
+    cases += list(gen_tie_history(120 if tier == 'quick' else 2000))
     cases += list(gen_eci_boundaries(rnd, range(1, 5) if tier == 'quick' else range(1, 41)))
     if tier != 'quick':
         cases += [Case(bytes([a, b]), {}, 'two-bytes') for a in range(0, 256) for b in range(0, 256, 1)]
@@ -294,6 +297,28 @@ def run_C05(tier, rnd, st, res):
             q = seq[0]
             seq_lines.append(f'sym id={len(seq_lines)} m={matrix_str(q.matrix)} micro=0 reqver={v} reqerr={opt(norm_error(req))} boost={int(boost)}')
             seq_info.append((content, kw))
+    # every symbol of a real sequence is boosted on its own (uneven chunks: the shorter ones may reach a higher level)
+    for _ in range(40 if tier == 'quick' else 400):
+        n = rnd.randint(2, 4)
+        mode = rnd.choice([1, 2, 4])
+        req = rnd.choice([None, 'L', 'M', 'Q'])
+        v = rnd.choice([1, 2, 3])
+        per = max_chars(v, norm_error(req) if req else 1, mode, 20)
+        total = max(n, n * per - rnd.randint(0, n * per // 2)) if rnd.random() < 0.6 else rnd.randint(n, max(n, 3 * n))
+        if total % n == 0:
+            total += 1
+        content = content_for(rnd, mode, total)
+        kw = dict(symbol_count=n, mask=1)
+        if req:
+            kw['error'] = req
+        try:
+            seq = segno.make_sequence(content, **kw)
+        except ValueError:
+            continue
+        res.evaluations += 1
+        for q in seq:
+            seq_lines.append(f'sym id={len(seq_lines)} m={matrix_str(q.matrix)} micro=0 reqver={q.version} reqerr={opt(norm_error(req))} boost=1')
+            seq_info.append((content, kw))
     for o, (content, kw) in zip(run_lines_parallel(JUDGE, seq_lines), seq_info):
         kv = parse_kv(o)
         if kv.get('c05') != 'ok':
@@ -355,8 +380,7 @@ def run_C06(tier, rnd, st, res):
         cases.append(Case(b, dict(mode='byte', micro=False), 'n3-rich'))
     # many symbols of one size in a row with automatic mask: exact ties of the minimal penalty occur for a few per cent of small
     # symbols — the lowest-numbered pattern must win whatever was encoded before
-    for i in range(250 if tier == 'quick' else 4000):
-        cases.append(Case('ITEM-%05d' % (i * 7 % 100000), dict(micro=False, error='m', boost_error=False), 'tie-history'))
+    cases += list(gen_tie_history(250 if tier == 'quick' else 4000))
     cases = sweep(cases, st, res, ['c06'], want_c06=True)
     sequence_block(tier, rnd, res, 'c06', auto_mask=True, versions=[1, 2, 3, 7] if tier == 'quick' else None)
     # requested masks through make_sequence (single-symbol shortcut and real sequences)
